@@ -620,6 +620,27 @@ impl Scenario for Fragmentation {
                 vio!(format!("C13:{kind}:{}", call_tag(&c.call)), "{:?} face, schedule {}: result {} differs from the result on an unfragmented, always-ready stream: {}", c.face, p.tag(), got.brief(), reference.brief());
             }
         }
+        // exploratory, never part of the verdict (EINTR is outside this property's schedule
+        // space): one transient ErrorKind::Interrupted on the sync face
+        if c.face == Face::Sync && !matches!(reference, Out::Failed(_)) {
+            let prep = prepare(&c.call, &mut Ctx::default(), "C13")?;
+            let mut sub = Ctx::default();
+            if let Ok((o, n)) = perform_p(&c.call, &prep, Face::Sync, &Policy::plain(), Fault::None, &mut sub) {
+                if n > 0 && o == reference {
+                    let at = base % n;
+                    if let Ok((o2, _)) = perform_p(&c.call, &prep, Face::Sync, &Policy::plain(), Fault::Interrupted { at, n: 1 }, &mut sub) {
+                        ctx.bump("extra_eintr_trials", 1);
+                        if o2 != reference {
+                            ctx.bump(&format!("extra_eintr_not_retried_{}", call_tag(&c.call)), 1);
+                            let note = "exploratory (outside the property's schedule space): a single ErrorKind::Interrupted from the stream is not always retried — some sync calls return an error or a different result (varint reads go through Read::read without an EINTR loop)".to_string();
+                            if !ctx.notes.contains(&note) {
+                                ctx.notes.push(note);
+                            }
+                        }
+                    }
+                }
+            }
+        }
         Ok(())
     }
     fn shrink(&self, case: &Value) -> Vec<Value> {
